@@ -5,6 +5,7 @@ Type descriptors (no spaces).  `R` is the backing representation, used only when
 value (h/b = HashSet/BTreeSet/HashMap/BTreeMap: `collect()` semantics; anything else keeps the
 listed entries as they are):
   mx<bits> mn<bits>   Max<u{bits}> / Min<u{bits}>        value: 17
+  mxi<bits> mni<bits> Max<i{bits}> / Min<i{bits}>        value: -17
   mxb mnb             Max<bool> / Min<bool>               value: t | f
   un                  ()                                  value: u
   cf                  Conflict<u32>                       value: N | S17
@@ -32,13 +33,15 @@ import HvLat.Model.Lattice
 open HvLat
 
 inductive Desc where
-  | maxN (bits : Nat) | minN (bits : Nat) | maxB | minB | unit | conflict
+  | maxN (bits : Nat) | minN (bits : Nat) | maxI (bits : Nat) | minI (bits : Nat) | maxB | minB | unit | conflict
   | set (r : Char) | map (r : Char) (v : Desc) | withBot (t : Desc) | withTop (t : Desc)
   | pair (a b : Desc) | domPair (k v : Desc) | vec (t : Desc) | tri (a b c : Desc)
 
 def Desc.ty : Desc → LTy
   | .maxN b => .maxN (2 ^ b - 1)
   | .minN b => .minN (2 ^ b - 1)
+  | .maxI b => .maxI (2 ^ (b - 1) - 1)
+  | .minI b => .minI (2 ^ (b - 1) - 1)
   | .maxB => .maxB
   | .minB => .minB
   | .unit => .unit
@@ -58,6 +61,11 @@ def pNat : P Nat := fun cs =>
   let ds := cs.takeWhile Char.isDigit
   if ds.isEmpty || ds.length > 12 then none else
   some (ds.foldl (fun n c => 10 * n + (c.toNat - '0'.toNat)) 0, cs.drop ds.length)
+
+def pInt : P Int := fun cs =>
+  match cs with
+  | '-' :: r => (pNat r).map fun (n, r) => (-(n : Int), r)
+  | _ => (pNat cs).map fun (n, r) => ((n : Int), r)
 
 def pChar (c : Char) : P Unit := fun cs =>
   match cs with
@@ -84,6 +92,8 @@ partial def pDesc : P Desc := fun cs =>
   match cs with
   | 'm' :: 'x' :: 'b' :: r => some (.maxB, r)
   | 'm' :: 'n' :: 'b' :: r => some (.minB, r)
+  | 'm' :: 'x' :: 'i' :: r => do let (b, r) ← pNat r; if b == 0 || b > 64 then none else pure (.maxI b, r)
+  | 'm' :: 'n' :: 'i' :: r => do let (b, r) ← pNat r; if b == 0 || b > 64 then none else pure (.minI b, r)
   | 'm' :: 'x' :: r => do let (b, r) ← pNat r; if b == 0 || b > 64 then none else pure (.maxN b, r)
   | 'm' :: 'n' :: r => do let (b, r) ← pNat r; if b == 0 || b > 64 then none else pure (.minN b, r)
   | 'u' :: 'n' :: r => some (.unit, r)
@@ -141,6 +151,12 @@ def arityOk (c : Char) (n : Nat) : Bool :=
 partial def pVal : (d : Desc) → P (Val d.ty)
   | .maxN b => fun cs => do let (n, r) ← pNat cs; if n ≤ 2 ^ b - 1 then pure (n, r) else none
   | .minN b => fun cs => do let (n, r) ← pNat cs; if n ≤ 2 ^ b - 1 then pure (n, r) else none
+  | .maxI b => fun cs => do
+    let (n, r) ← pInt cs
+    if -((2 ^ (b - 1) - 1 : Nat) : Int) - 1 ≤ n ∧ n ≤ ((2 ^ (b - 1) - 1 : Nat) : Int) then pure (n, r) else none
+  | .minI b => fun cs => do
+    let (n, r) ← pInt cs
+    if -((2 ^ (b - 1) - 1 : Nat) : Int) - 1 ≤ n ∧ n ≤ ((2 ^ (b - 1) - 1 : Nat) : Int) then pure (n, r) else none
   | .maxB => fun cs => match cs with | 't' :: r => some (true, r) | 'f' :: r => some (false, r) | _ => none
   | .minB => fun cs => match cs with | 't' :: r => some (true, r) | 'f' :: r => some (false, r) | _ => none
   | .unit => fun cs => match cs with | 'u' :: r => some ((), r) | _ => none
@@ -201,6 +217,8 @@ def showOpt (f : α → String) : Option α → String
 def showVal : (t : LTy) → Val t → String
   | .maxN _, (n : Nat) => toString n
   | .minN _, (n : Nat) => toString n
+  | .maxI _, (n : Int) => toString n
+  | .minI _, (n : Int) => toString n
   | .maxB, (b : Bool) => if b then "t" else "f"
   | .minB, (b : Bool) => if b then "t" else "f"
   | .unit, _ => "u"
